@@ -142,6 +142,20 @@ def sign_target(draw, n):
 
 
 @st.composite
+def planted_sign_target(draw, X):
+    """labels correlated with the design: sign(X w* + noise); both classes forced present"""
+    X = np.asarray(X, float)
+    n, p = X.shape
+    w = np.array(draw(st.lists(st.sampled_from([0., 1., -1., 2., -.5, .5]), min_size=p, max_size=p)))
+    K = draw(hnp.arrays(np.int16, (n,), elements=st.integers(-500, 500)))
+    z = X @ w + K.astype(float) / 1000. * draw(st.sampled_from([0., 1., 3.]))
+    y = np.where(z >= 0, 1., -1.)
+    if n >= 2 and len(set(y.tolist())) == 1:
+        y[draw(st.integers(0, n - 1))] *= -1.
+    return y.tolist()
+
+
+@st.composite
 def count_target(draw, n):
     return [float(v) for v in draw(st.lists(st.integers(0, 6), min_size=n, max_size=n))]
 
